@@ -14,7 +14,7 @@ INF = float("inf")
 Failure = namedtuple("Failure", "props code msg index action")
 
 FWD, REV, DONE = "FWD", "REV", "DONE"
-ICS, DEPS = "ics", "deps"
+ICS, DEPS, BOTH = "ics", "deps", "both"
 
 
 class ClassInfo:
@@ -225,7 +225,7 @@ class Machine:
             if n0 in store:
                 self._fail(["C01"], "overwrite",
                            f"checkpoint {n0} already exists in {st!r}", a)
-            kind = DEPS if (wa and not wi) else ICS
+            kind = BOTH if (wa and wi) else (DEPS if wa else ICS)
             store[n0] = (kind, n0, n1t)
             self.touched.add(st)
             if st == S.DISK:
@@ -300,14 +300,19 @@ class Machine:
                 self._fail(["C01"], "checkpoint_not_before_adjoint",
                            f"checkpoint {n} loaded with the adjoint at "
                            f"{N - self.r}", a)
-            if kind == ICS:
+            if kind in (DEPS, BOTH) and c1 - c0 > 1 and \
+                    not self.info.multi_deps:
+                self._fail(["C12"], "loaded_deps_multistep",
+                           f"loading checkpoint {n} puts adjoint dependencies "
+                           f"of {c1 - c0} steps into WORK", a)
+            if kind in (ICS, BOTH):
                 if c1 < N - self.r:
                     self._fail(["C01"], "restart_data_short",
                                f"checkpoint {n} covers steps [{c0},{c1}) but "
                                f"steps up to {N - self.r} remain", a)
                 self.fwd = n
                 self.w_ics = (c0, c1)
-                self.w_deps = None
+                self.w_deps = (c0, c1) if kind == BOTH else None
             else:
                 self.fwd = None
                 self.w_ics = None
